@@ -27,6 +27,7 @@ type Program struct {
 	ByPath map[string]*ssa.Package
 	Specs  map[string]*SpecFile // by package path
 	byName map[string]*ssa.Function
+	ElemInv map[string]*ssa.Function // element type string -> invariant (spec function)
 }
 
 // Load loads every package of the module rooted at repo. overlayGen is called
@@ -80,6 +81,18 @@ func Load(repo string, withSpecs bool) (*Program, error) {
 	}
 	for _, sp := range prog.AllPackages() {
 		p.ByPath[sp.Pkg.Path()] = sp
+	}
+	p.ElemInv = map[string]*ssa.Function{}
+	for path, sf := range p.Specs {
+		for _, name := range sf.ElemInvs {
+			if sp := p.ByPath[path]; sp != nil {
+				if fn := sp.Func(name); fn != nil && len(fn.Params) == 1 {
+					p.ElemInv[types.TypeString(fn.Params[0].Type(), nil)] = fn
+				} else {
+					return nil, fmt.Errorf("elem invariant %s in %s: no such one-parameter spec function", name, path)
+				}
+			}
+		}
 	}
 	return p, nil
 }
